@@ -50,7 +50,7 @@ CHECKS = {
          "Trusted: the reference tokenizer written from the token list in the statement. Language membership beyond length 5 is sampled by grammar-based generation.",
          "4/C19"),
  "C02": ("operation-table cross-product sweeps + proptest operands vs. range predicates and exact models (validity oracle)",
-         "Every row of a 130-row table of safe public operations is crossed with boundary+seeded operand pools and extreme scalars, and fed proptest-generated operands; every returned value must satisfy its type's range predicate, rows with an exact model must return Ok(exact) iff in range (so clamping or an in-range wrap is caught), month arithmetic must match the month model or fail, and speller-built parse inputs at / past the edges must yield Err or an in-range value. Integers of every width handed to each type's Deserialize (serde de::value deserializers) must give an error or exactly the in-range value they denote, never a wrapped image. Runs under both build profiles (release and overflow-checked) in every tier; scaling by limit-tuned factors, public constants, leap-second clock reads and clocks outside the supported range are included.",
+         "Every row of a 130-row table of safe public operations is crossed with boundary+seeded operand pools and extreme scalars, and fed proptest-generated operands; every returned value must satisfy its type's range predicate, rows with an exact model must return Ok(exact) iff in range (so clamping or an in-range wrap is caught), month arithmetic must match the month model or fail, and speller-built parse inputs at / past the edges must yield Err or an in-range value. Integers of every width handed to each type's Deserialize (serde de::value deserializers) must give an error or exactly the in-range value they denote, never a wrapped image. Runs under both build profiles (release and overflow-checked) in every tier; scaling by limit-tuned factors, public constants, leap-second clock reads, clocks outside the supported range and interval limit texts in every field order are included.",
          "Trusted: range limits derived from the walked calendar and the statement; the operation table is hand-written from the public API (a new public function is not picked up automatically). Sampled over operand space; boundary regions by construction.",
          "4/C02"),
  "C03": ("exhaustive short strings + proptest grammar/mutation generation + operation table with extreme scalars, oracle = catch_unwind; both build profiles; libFuzzer target in thorough",
